@@ -319,19 +319,19 @@ struct _table_riscv_comp table_riscv_comp[] =
   { "c.fld",       0x2000, 0xe003, OP_COMP_UIMM53_76,  RISCV_FP },
   { "c.lq",        0x2000, 0xe003, OP_COMP_UIMM548_76, RISCV128 },
   { "c.lw",        0x4000, 0xe003, OP_COMP_UIMM53_26,  0 },
-  { "c.flw",       0x6000, 0xe003, OP_COMP_UIMM53_26,  RISCV_FP },
+  { "c.flw",       0x6000, 0xe003, OP_COMP_UIMM53_26,  RISCV_FP | RISCV32 },
   { "c.ld",        0x6000, 0xe003, OP_COMP_UIMM53_76,  RISCV64 | RISCV128 },
   { "c.fsd",       0xa000, 0xe003, OP_COMP_UIMM53_76,  RISCV_FP },
   { "c.sq",        0xa000, 0xe003, OP_COMP_UIMM548_76, RISCV128 },
   { "c.sw",        0xc000, 0xe003, OP_COMP_UIMM53_26,  0 },
-  { "c.fsw",       0xe000, 0xe003, OP_COMP_UIMM53_26,  RISCV_FP },
+  { "c.fsw",       0xe000, 0xe003, OP_COMP_UIMM53_26,  RISCV_FP | RISCV32 },
   { "c.sd",        0xe000, 0xe003, OP_COMP_UIMM53_76,  RISCV64 | RISCV128 },
 
   // Quadrant 1.
   { "c.nop",       0x0001, 0xffff, OP_NONE,            0 },
   { "c.addi",      0x0001, 0xe003, OP_COMP_RD_NZIMM5,  0 },
-  { "c.jal",       0x2001, 0xe003, OP_COMP_JUMP,       0 },
-  { "c.addiw",     0x2001, 0xe003, OP_COMP_RD_IMM5,    0 },
+  { "c.jal",       0x2001, 0xe003, OP_COMP_JUMP,       RISCV32 },
+  { "c.addiw",     0x2001, 0xe003, OP_COMP_RD_IMM5,    RISCV64 | RISCV128 },
   { "c.li",        0x4001, 0xe003, OP_COMP_RD_IMM5,    0 },
   { "c.addi16sp",  0x6101, 0xef83, OP_COMP_9_46875,    0 },
   { "c.lui",       0x6001, 0xe003, OP_COMP_RD_17_1612, 0 },
@@ -356,7 +356,7 @@ struct _table_riscv_comp table_riscv_comp[] =
   { "c.fldsp",     0x2002, 0xe003, OP_COMP_RD_5_4386,  RISCV_FP },
   { "c.lqsp",      0x2002, 0xe003, OP_COMP_RD_5_496,   RISCV128 },
   { "c.lwsp",      0x4002, 0xe003, OP_COMP_RD_5_4276,  0 },
-  { "c.flwsp",     0x6002, 0xe003, OP_COMP_RD_5_4276,  RISCV_FP },
+  { "c.flwsp",     0x6002, 0xe003, OP_COMP_RD_5_4276,  RISCV_FP | RISCV32 },
   { "c.ldsp",      0x6002, 0xe003, OP_COMP_RD_5_4386,  RISCV64 | RISCV128 },
   { "c.ret",       0x8082, 0xffff, OP_NONE,            0 },
   { "c.jr",        0x8002, 0xf07f, OP_COMP_RD32,       0 },
@@ -367,7 +367,7 @@ struct _table_riscv_comp table_riscv_comp[] =
   { "c.fsdsp",     0xa002, 0xe003, OP_COMP_5386_RS2,   RISCV_FP },
   { "c.sqsp",      0xa002, 0xe003, OP_COMP_5496_RS2,   RISCV128 },
   { "c.swsp",      0xc002, 0xe003, OP_COMP_5276_RS2,   0 },
-  { "c.fswsp",     0xe002, 0xe003, OP_COMP_5276_RS2,   RISCV_FP },
+  { "c.fswsp",     0xe002, 0xe003, OP_COMP_5276_RS2,   RISCV_FP | RISCV32 },
   { "c.sdsp",      0xe002, 0xe003, OP_COMP_5386_RS2,   RISCV64 | RISCV128 },
   // Huawei extensions that collide with c.fsd, c.fld, c.fsdp, c.fldsp.
   { "c.sb",        0xa000, 0xe003, OP_COMP_HUA_043_21, 0 },
